@@ -669,3 +669,65 @@ MUTANTS = [
       "    def create_from_cap(self, writecap, readcap=None,", "    def create_from_capX(self, writecap, readcap=None,",
       "ANALYSIS-ERROR"),
 ]
+
+
+# ---- C13.3 with _do_serialized as an inlineCallbacks generator in a shared mixin (seeded C13-I; the faithful forms are
+# benign variants of C09 and were false alarms of C13.3 in the cross-property run).  The builder is C09's; when it cannot
+# be imported the variants are skipped.
+try:
+    from .C09 import _ds_variant as _C09_DS, _DS_MIXIN as _C09_DS_MIXIN
+except Exception:           # pragma: no cover
+    _C09_DS = None
+
+if _C09_DS is not None:
+    _DS_HEAD = "        ahead = self._serializer\n        self._serializer = finished = defer.Deferred()\n        yield ahead\n"
+    _DS_TRY = ("        try:\n            res = yield cb(*args, **kwargs)\n        finally:\n"
+               "            eventually(finished.callback, None)\n        return res\n")
+
+    def _DS(mid, expect, head=_DS_HEAD, **kw):
+        m = _C09_DS(mid, expect, **kw)
+        if head is not _DS_HEAD:
+            if _DS_HEAD not in m.new:
+                return None
+            m = M(mid, m.path, m.old, m.new.replace(_DS_HEAD, head), expect, edits=list(m.edits))
+        return m
+
+    MUTANTS += [x for x in [
+        _DS("benign-do-serialized-inlinecallbacks-faithful", None),
+        _DS("benign-do-serialized-inlinecallbacks-yield-a-local", None,
+            run="        try:\n            d = cb(*args, **kwargs)\n            res = yield d\n        finally:\n"
+                "            eventually(finished.callback, None)\n        return res\n"),
+        _DS("benign-do-serialized-inlinecallbacks-return-the-yield", None,
+            run="        try:\n            return (yield cb(*args, **kwargs))\n        finally:\n"
+                "            eventually(finished.callback, None)\n"),
+        _DS("benign-do-serialized-inlinecallbacks-tail-in-local-first", None,
+            head="        ahead = self._serializer\n        finished = defer.Deferred()\n        self._serializer = finished\n"
+                 "        yield ahead\n"),
+        # the seeded C13-I order: wait first, take the tail afterwards - all waiters are released together
+        _DS("do-serialized-inlinecallbacks-tail-installed-after-wait", "C13.3",
+            head="        yield self._serializer\n        self._serializer = finished = defer.Deferred()\n"),
+        _DS("do-serialized-inlinecallbacks-previous-tail-not-awaited", "C13.3",
+            head="        ahead = self._serializer\n        self._serializer = finished = defer.Deferred()\n"),
+        _DS("do-serialized-inlinecallbacks-waits-for-its-own-tail", "C13.3",
+            head="        self._serializer = finished = defer.Deferred()\n        ahead = self._serializer\n        yield ahead\n"),
+        _DS("do-serialized-inlinecallbacks-installs-old-tail-again", "C13.3",
+            head="        ahead = self._serializer\n        finished = defer.Deferred()\n        self._serializer = ahead\n"
+                 "        yield ahead\n"),
+        _DS("do-serialized-inlinecallbacks-tail-fired-only-on-success", "C13.3",
+            run="        res = yield cb(*args, **kwargs)\n        eventually(finished.callback, None)\n        return res\n"),
+        _DS("do-serialized-inlinecallbacks-tail-never-fired", "C13.3",
+            run="        res = yield cb(*args, **kwargs)\n        return res\n"),
+        _DS("do-serialized-inlinecallbacks-fires-another-deferred", "C13.3",
+            run="        try:\n            res = yield cb(*args, **kwargs)\n        finally:\n"
+                "            eventually(ahead.callback, None)\n        return res\n"),
+        _DS("do-serialized-inlinecallbacks-operation-not-yielded", "C13.3",
+            run="        try:\n            res = cb(*args, **kwargs)\n        finally:\n"
+                "            eventually(finished.callback, None)\n        return res\n"),
+        _DS("do-serialized-inlinecallbacks-operation-without-arguments", "C13.3",
+            run="        try:\n            res = yield cb()\n        finally:\n"
+                "            eventually(finished.callback, None)\n        return res\n"),
+        _DS("do-serialized-inlinecallbacks-result-dropped", "C13.3",
+            run="        try:\n            yield cb(*args, **kwargs)\n        finally:\n"
+                "            eventually(finished.callback, None)\n        return None\n"),
+        _DS("do-serialized-generator-decorator-lost", "C13.3", deco=""),
+    ] if x is not None]
